@@ -123,8 +123,12 @@ def scenarios(rng, variant=2):
     yield 'tedmd.amuset_hocur', [], lambda: tedmd.amuset_hocur(xd, np.arange(5), np.arange(1, 6), basis, max_rank=4)
     yield 'tgedmd.amuset_hosvd', [], lambda: tgedmd.amuset_hosvd(xd, basis, np.random.rand(2, 2, 6), b=np.random.rand(2, 6),
                                                                  threshold=1e-10, return_option='eigentensors')
-    yield 'tt.factories', [], lambda: (tt.zeros(dims, [1] * d), tt.ones(dims, dims), tt.eye(dims), tt.unit(dims, [0] * d),
-                                       tt.uniform(dims), tt.rand(dims, [1] * d, ranks=[1] * (d + 1)))
+    # every constructor twice: the two results are distinct live objects (no cached arrays shared between calls)
+    yield 'tt.eye x2', [], lambda: (tt.eye(dims), tt.eye(dims))
+    yield 'tt.ones x2', [], lambda: (tt.ones(dims, dims), tt.ones(dims, dims))
+    yield 'tt.zeros+unit x2', [], lambda: (tt.zeros(dims, [1] * d), tt.zeros(dims, [1] * d), tt.unit(dims, [0] * d), tt.unit(dims, [0] * d))
+    yield 'tt.uniform+rand x2', [], lambda: (tt.uniform(dims), tt.uniform(dims), tt.rand(dims, [1] * d, ranks=[1] * (d + 1)),
+                                             tt.rand(dims, [1] * d, ranks=[1] * (d + 1)))
     yield 'slim.slim_mme', [], lambda: slim.slim_mme([2, 3, 2], [[[0, 1, 1.0]], [[1, 2, 2.0]], []],
                                                      [[[0, 1, 1, 0, 0.5]], [[2, 1, 0, 1, 1.5]], [[1, 0, 0, 1, 1.0]]])
     yield 'ulam.ulam_2d', [], lambda: ulam.ulam_2d(np.array([[1, 2, 1], [1, 1, 2], [2, 1, 1], [1, 2, 2]]), [2, 2], 1)
